@@ -112,6 +112,18 @@ def gen_cases(tier, seed):
         cases.append({"shells": shells, "points": pts, "nuc": nuc, "Z": Z, "dm": dm, "transform": T, "thresholds": thr, "Z_int": zint,
                       "classes": classes + sorted(pcl) + [tcls, dcls, "nnuc:%d" % nnuc] + (["Z:negative"] if min(Z) < 0 else []) + (["Z:big"] if max(abs(z) for z in Z) > 5 else []) + (["Z:int-array", "thr:int"] if zint else []),
                       "cost": len(pts) * sum((3 + a + b) ** 3 * len(x["e"]) * len(y["e"]) for x, a in zip(shells, ls) for y, b in zip(shells, ls))})
+    # large grids (more than 500 / 1000 points in one call) with a square and a rectangular transformation
+    for k, npts in enumerate((520, 1300) if tier == "quick" else (520, 760, 1030, 1300, 2100)):
+        rng = bases.rng_for("C14", seed, tier, "many-points", npts)
+        ls = [[1, 0], [0, 2], [1, 1]][k % 3]
+        shells, classes = bases.rand_basis(rng, ls, scale=1.0, emax_fn=lambda l: 20.0, Kmax=2, Mmax=1, symmetric=False)
+        ntot = sum(bases.nfunc(s) for s in shells)
+        T, tcls = bases.rand_transform(rng, ntot, ["general", "fewer", "orth"][k % 3])
+        dm, dcls = bases.rand_sym(rng, len(T), "indef")
+        nuc = [list(s["c"]) for s in shells]
+        pts = (np.array(shells[0]["c"]) + rng.normal(size=(npts, 3)) * 2.0).tolist()
+        cases.append({"shells": shells, "points": pts, "nuc": nuc, "Z": [3.0, 1.0], "dm": dm, "transform": T, "thresholds": [0.0, 0.4], "Z_int": False,
+                      "classes": classes + ["pt:many(%d)" % npts, tcls, dcls, "nnuc:2"], "cost": npts * 40})
     cases += bases.argrep_variants("C14", seed, tier, cases, 6, ok=lambda c: "shells" in c and c.get("kind") in (None, "whole", "kernel", "perm", "real"))  # constructor arguments in other in-memory representations
     return cases
 
